@@ -175,8 +175,10 @@ static int pt3_load(struct module_data *m, HIO_HANDLE *f, const int start)
 	ret |= libxmp_iff_register(handle, "CMNT", get_cmnt);
 	ret |= libxmp_iff_register(handle, "PTDT", get_ptdt);
 
-	if (ret != 0)
+	if (ret != 0) {
+		libxmp_iff_release(handle);
 		return -1;
+	}
 
 	libxmp_iff_set_quirk(handle, IFF_FULL_CHUNK_SIZE);
 
